@@ -174,7 +174,7 @@ def c16_jobs(tier, seed):
     J = []
     core = gen.core()
     stride = 2 if tier == "quick" else 1
-    for d in [1, 2, 4, 5, 9, 10, 12, 13, 18]:
+    for d in ([1, 2, 5, 12, 18] if tier == "quick" else [1, 2, 4, 5, 9, 10, 12, 13, 18]):
         for s in core[d % stride::stride]:
             J.append(dom_job(d, s, "c16q", budget=400 if tier == "quick" else 1200, tier=tier))
     for d in (22, 23):
@@ -184,7 +184,7 @@ def c16_jobs(tier, seed):
             J.append(dom_job(d, s, "sound", budget=400, tier=tier))
     # copy-then-mutate histories in sound mode: every observation of the untouched value is unchanged
     cp = [s for s in core if "cpy" in s]
-    for d in [1, 2, 3, 4, 5, 10, 12, 13, 17, 18, 20, 21]:
+    for d in ([1, 2, 5, 10, 13, 18, 21] if tier == "quick" else [1, 2, 3, 4, 5, 10, 12, 13, 17, 18, 20, 21]):
         for s in cp:
             J.append(dom_job(d, s, "sound", budget=400, tier=tier))
     rng = random.Random(3000 + seed)
